@@ -359,6 +359,14 @@ def parse_mir(text):
                 bodies[b.name] = b
             i = j + 1
         else:
+            m1 = re.match(r"^(?:const|static(?: mut)?) (.*?): ([^=]*) = const (.*);$", ln) if ln.startswith(("const ", "static ")) else None
+            if m1:
+                b = Body(m1.group(1).strip(), "const")
+                b.ret = m1.group(2).strip()
+                b.text = ln
+                b.blocks["bb0"] = ([Stmt("assign", place=Place(0), rv=Rvalue("use", Operand("const", const=m1.group(3).strip()), raw=ln), raw=ln)],
+                                   Term("return", ln))
+                bodies[b.name] = b
             i += 1
     return bodies
 
